@@ -609,6 +609,12 @@ def run_e2e(ctx, n):
         {"shape": "stdin", "p": 5000, "md5": True, "files": [("s", 20001, 9)], "out": "-", "bursts": [1, 4999, 5000, 5001, 3, 4997]},
         {"shape": "stdin", "p": 7, "md5": False, "files": [("s", 0, 10)], "out": "-", "bursts": []},
         {"shape": "stdin", "p": 16384, "md5": False, "files": [("s", 32768, 11)], "out": "out.torrent", "bursts": [16383, 2, 16383]},
+        # piece lengths above anything the automatic picker chooses, with content straddling 16 MiB / the piece end
+        # (added after seeded change C01-3: a read buffer capped at 16 MiB went unnoticed below that size)
+        {"shape": "file", "p": 32 << 20, "md5": False, "files": [("big", (20 << 20) + 5, 12)], "out": "-"},
+        {"shape": "dir", "p": 32 << 20, "md5": True, "files": [("a", (9 << 20) + 1, 13), ("b", 9 << 20, 14), ("c", 1024, 15)], "out": "-"},
+        {"shape": "file", "p": 1 << 24, "md5": False, "files": [("edge", (1 << 24) + 1, 16)], "out": "-"},
+        {"shape": "stdin", "p": 64 << 20, "md5": False, "files": [("s", (17 << 20) + 3, 17)], "out": "-", "bursts": [1 << 20] * 17 + [3]},
     ]
     cases = [dict(c, kind="e2e", id=-1 - i) for i, c in enumerate(fixed)] + cases
     tmp = tempfile.mkdtemp(prefix="c01-")
